@@ -1,3 +1,4 @@
+import IkeProofs.RefineSa.RandNum
 import IkeProofs.RefineReg.Registries
 import IkeProofs.RefineReg.Dh
 import IkeProofs.Theorems.C11
@@ -44,5 +45,49 @@ theorem C11_gen_sound_encr (t : Transform) (x : Gen.encr.ENCRType) (a : EncrInfo
   simp only [Res.map, ha, Res.ok.injEq] at hr
   obtain ⟨h1, h2, h3, h4, _⟩ := C11_sound_encr t a hr.symm
   exact ⟨h1, h2, h3, h4⟩
+
+/-! ### `security.NewIKESAKey` as translated: which algorithms an SA object is built from -/
+
+open Ike.RefineSa in
+/-- whatever `NewIKESAKey` returns without an error holds exactly the descriptors its four FIRST transforms denote
+(`decDh` … `decPrf`: the closed forms of the translated `DecodeTransform`s on the initialised registries), all four
+registered ones; the object is well-formed for `ike.go` -/
+theorem C11_gen_newIkeSa_descriptors (P : Prims) (hP : P.Lawful) (r r' : Rand) (p : Proposal)
+    (td te ti tp : Transform) (hd : p.dh.head? = some td) (he : p.encr.head? = some te)
+    (hi : p.integ.head? = some ti) (hp : p.prf.head? = some tp)
+    (ke nonce : Bytes) (si sr : UInt64) (k' : Gen.security.IKESAKey) (pub : Bytes)
+    (h : Gen.security.NewIKESAKey P secG RefineReg.dhG RefineReg.encrG RefineReg.integG RefineReg.prfG r (some p)
+        ke nonce si sr = .ok (r', k', pub)) :
+    k'.DhInfo = decDh td ∧ k'.EncrInfo = decEncr te ∧ k'.IntegInfo = decInteg ti ∧ k'.PrfInfo = decPrf tp ∧
+    SaRegistered k' ∧ GenAbsSa.SaWF k' := by
+  obtain ⟨_, _, hwf, hreg, h1, h2, h3, h4, _⟩ :=
+    NewIKESAKey_ok_wf P hP r r' p td te ti tp hd he hi hp ke nonce si sr k' pub h
+  exact ⟨h1, h2, h3, h4, hreg, hwf⟩
+
+open Ike.RefineSa in
+/-- an unsupported transform in any of the four first positions never yields an SA object: DH, encryption and PRF
+are refused at once; an unsupported INTEGRITY transform is not caught by `NewIKESAKey`'s own test (security.go tests
+`EncrInfo` a second time) but by `GenerateKeyForIKESA` — after the exponent was drawn — with an error all the same -/
+theorem C11_gen_newIkeSa_unsupported (P : Prims) (r : Rand) (p : Proposal)
+    (td te ti tp : Transform) (hd : p.dh.head? = some td) (he : p.encr.head? = some te)
+    (hi : p.integ.head? = some ti) (hp : p.prf.head? = some tp)
+    (h : decDh td = .nil_ ∨ decEncr te = .nil_ ∨ decInteg ti = .nil_ ∨ decPrf tp = .nil_)
+    (ke nonce : Bytes) (si sr : UInt64) :
+    ∀ x, Gen.security.NewIKESAKey P secG RefineReg.dhG RefineReg.encrG RefineReg.integG RefineReg.prfG r (some p)
+        ke nonce si sr ≠ .ok x := by
+  intro x hx
+  by_cases h3 : decDh td = .nil_ ∨ decEncr te = .nil_ ∨ decPrf tp = .nil_
+  · rw [NewIKESAKey_unsupported P r p td te ti tp hd he hi hp h3 ke nonce si sr] at hx; cases hx
+  · have hdn : decDh td ≠ .nil_ := fun e => h3 (Or.inl e)
+    have hen : decEncr te ≠ .nil_ := fun e => h3 (Or.inr (Or.inl e))
+    have hpn : decPrf tp ≠ .nil_ := fun e => h3 (Or.inr (Or.inr e))
+    have hin : decInteg ti = .nil_ := by
+      rcases h with h | h | h | h
+      · exact absurd h hdn
+      · exact absurd h hen
+      · exact h
+      · exact absurd h hpn
+    rcases NewIKESAKey_unsupported_integ_not_ok P r p td te ti tp hd he hi hp hdn hen hpn hin ke nonce si sr with
+      ⟨e, _⟩ | ⟨e, _⟩ <;> (rw [e] at hx; cases hx)
 
 end Ike
